@@ -1,9 +1,13 @@
 """C03 - version comparison agrees with dpkg and is a consistent total preorder; equal => equal hash.
 
 cases:
-  {"kind": "pair",   "a": version, "b": version}
-  {"kind": "pair",   "a": version, "b": version, "edits": [[attribute, value], ...]}
-  {"kind": "triple", "vs": [version, version, version]}
+  {"kind": "pair",    "a": version, "b": version}
+  {"kind": "pair",    "a": version, "b": version, "cls": [class name, class name]}
+  {"kind": "pair",    "a": version, "b": version, "edits": [[attribute, value], ...]}
+  {"kind": "triple",  "vs": [version, version, version]}
+  {"kind": "objects", "a": version, "b": version, "cls": class name, "warm": bool,
+                      "dups": [[source index, how], ...], "edits": [[object index, attribute, value], ...],
+                      "order": 0..3}
 
 Every version must be a syntactically valid version string (model/c14_recogniser says VALID);
 anything else is skipped with the label ``invalid-case-skipped``.  Digit runs may be of any
@@ -18,8 +22,30 @@ way, as long as ``str(object)`` is a valid version string S, the object has to o
 exactly like a fresh ``Version(S)`` -- against that fresh object, against ``Version(b)`` and against
 ``Version(a)``, in both operand orders.  Whether an attempt *should* be accepted is not judged here
 (that is C14's business).
+
+``cls`` names the class each operand is built with: Version, NativeVersion, UserVersion / TaggedVersion
+(two user subclasses of Version defined below: nothing added / one extra plain attribute) or BaseVersion
+(the common base class, which cannot compare on its own and therefore only ever faces an operand of one
+of the other classes; a pair of two BaseVersion is skipped).  The library compares any two objects of the
+family with each other, so every clause - order as dpkg, trichotomy, antisymmetry, equal => equal hash,
+one set element, dict look-up - is demanded for every combination of classes.
+
+``objects``: object 0 is cls(a); every entry of ``dups`` adds a live object obtained from an earlier one
+(source index modulo the number of objects so far) by ``how`` = copy (copy.copy), deepcopy, pickle0..5
+(round trip with that protocol), ctor (type(obj)(obj), the documented "Version from a version object"),
+ctor:<Class> (another class of the family from the object) or str (type(obj)(str(obj)), the control).
+``warm`` = the original was compared and hashed before being duplicated.  ``edits`` are assignment
+attempts on any of the live objects (object index modulo their number).  After every attempt ALL live
+objects are observed (in index order, or in reverse when order & 1; also once before the first attempt
+unless order & 2): as long as every object shows a valid string, each must order and hash like a fresh
+Version of the string it shows - against that fresh object, against Version(b) and against every other
+live object.  What string a duplicate shows is not judged (only that it behaves like it); a way of
+duplicating that raises (copy / deepcopy / pickle) is counted under ``dup-unavailable:*`` and skipped -
+the property does not promise copy or pickle support (on the unchanged tree all of them work).
 """
+import copy
 import itertools
+import pickle
 
 from hypothesis import strategies as st
 
@@ -28,7 +54,7 @@ from ..model import c03_dpkgcmp as ref
 from ..model.c14_recogniser import recognise, VALID
 from ..gen import c03_versions as gen
 
-from debian.debian_support import Version, version_compare
+from debian.debian_support import BaseVersion, NativeVersion, Version, version_compare
 
 ID = "C03"
 LEVEL = "exploration"
@@ -57,6 +83,18 @@ RULE = ("cases are ordered pairs (and triples) of valid version strings; enumera
         "each template alone on a fresh object and all 20 in succession on one object (two rotations); "
         "generated - near-miss pairs with 1-4 attempts (a template of the second version / of an independent "
         "donor, or a free string of <=6 characters over {0,1,a,Z,.,+,~,:,-}). "
+        "OPERAND CLASSES ('cls'): enumerated - ALL ordered pairs of a 36-version pool rich in equal-but-differently-"
+        "spelled versions (gen.c03_versions.CLASS_POOL) x all 24 ordered pairs of classes out of Version, "
+        "NativeVersion, two user subclasses of Version and BaseVersion (never both BaseVersion); generated - near-miss "
+        "pairs with independently drawn classes. "
+        "OBJECTS OBTAINED ANOTHER WAY ('objects'): enumerated - 6 start versions x 4 donors x 8 ways of duplicating "
+        "(copy.copy, copy.deepcopy, pickle protocols 2 and 5, the constructor called with the object / with its string / "
+        "of another class) x 7 assignment attempts built from the donor x attempt on the original or on the duplicate x "
+        "original compared and hashed before duplication or not, class of the original and observation order rotating; "
+        "for one donor per start all 64 two-step chains (a duplicate of the duplicate or a second duplicate of the "
+        "original) with four attempts spread over the three objects; all 14 ways of duplicating alive together and "
+        "unchanged; generated - near-miss pairs, 1-3 duplicates of earlier objects (any way, pickle protocols 0-5) and "
+        "0-4 attempts (donor parts, the 20 templates, free strings) on any of the objects. "
         "Non-trivial = the two strings differ AND at least one of: a '~' occurs, a digit run has a "
         "leading zero, a digit run is longer than 18 characters, epoch absent on one side and present on "
         "the other, revision absent on one side "
@@ -64,7 +102,10 @@ RULE = ("cases are ordered pairs (and triples) of valid version strings; enumera
         "digit faces a non-digit or the end of one string faces a non-digit (triples: some pair is "
         "non-trivial); a case with edits is also non-trivial when an attempt whose resulting string "
         "consists of version-alphabet characters only was refused and the object was then "
-        "compared; distinct = distinct canonical JSON of the case")
+        "compared; a pair with classes is also non-trivial when the classes differ and the versions are equal "
+        "(identical strings included: the hash clause across classes); an objects case is non-trivial when at least "
+        "two objects are alive and at least one attempt was made and observed; "
+        "distinct = distinct canonical JSON of the case")
 ASSUMPTIONS = [
     "reference = own port of dpkg lib/dpkg/version.c (order/verrevcmp/dpkg_version_compare) AND an "
     "independent zero-padded sort-key formulation; the two are compared on every evaluated pair "
@@ -78,6 +119,11 @@ ASSUMPTIONS = [
     "refused assignment it must order and hash like a fresh Version of that string (only observed "
     "while that string is valid per model/c14_recogniser); ValueError is the only exception an "
     "assignment may raise",
+    "a version object is a version object however obtained: objects of every class of the family (Version, "
+    "NativeVersion, user subclasses, BaseVersion as one of two operands) compare with each other on the unchanged tree "
+    "and are therefore held to all clauses; copies (copy.copy, copy.deepcopy, pickle round trip, constructor called "
+    "with an object) are separate objects, each standing for the string it shows itself - that the copy shows the "
+    "same string as its source is NOT demanded here, nor that copying is possible at all",
     "version syntax as decided by model/c14_recogniser (letter-led upstream versions count as valid: the "
     "repository's own tests compare '0' < 'a'; dpkg only warns)",
     "PYTHONHASHSEED=0 (boot.py); equal hashes are demanded only where the reference says 'equal'",
@@ -85,13 +131,32 @@ ASSUMPTIONS = [
 ]
 EXHAUSTIVE = {"quick": "all ordered pairs of the quick version pool (gen.c03_versions.pool('quick')); all ordered "
                        "pairs within each long-digit-run list (gen.c03_versions.long_run_groups()); every start x "
-                       "donor x assignment template of gen.c03_versions.edit_cases()",
+                       "donor x assignment template of gen.c03_versions.edit_cases(); all ordered pairs of "
+                       "gen.c03_versions.CLASS_POOL x all 24 class pairs; every case of gen.c03_versions.object_cases()",
               "thorough": "all ordered pairs of the quick version pool (the larger pool is sampled, not exhausted); "
                           "all ordered pairs of the whole long-digit-run pool (gen.c03_versions.long_run_pool()); "
-                          "every start x donor x assignment template of gen.c03_versions.edit_cases()"}
+                          "every start x donor x assignment template of gen.c03_versions.edit_cases(); all ordered "
+                          "pairs of gen.c03_versions.CLASS_POOL x all 24 class pairs; every case of "
+                          "gen.c03_versions.object_cases()"}
 BUDGET = {"quick": 200, "thorough": 1500}
 
 DIGITS = "0123456789"
+
+
+class UserVersion(Version):
+    """What an application derives when it only wants its own type: nothing added."""
+
+
+class TaggedVersion(Version):
+    """What an application derives to carry extra data: one plain attribute next to the version."""
+
+    def __init__(self, version):
+        super(TaggedVersion, self).__init__(version)
+        self.tag = "origin"
+
+
+CLASSES = {"Version": Version, "NativeVersion": NativeVersion, "UserVersion": UserVersion,
+           "TaggedVersion": TaggedVersion, "BaseVersion": BaseVersion}
 
 
 def _valid(v):
@@ -191,13 +256,17 @@ def decided_by(a, b, r):
     return "revision"
 
 
-def check_pair(a, b):
-    """All clauses for the ordered pair (a, b); returns (reference verdict, library verdict)."""
+def check_pair(a, b, ca=Version, cb=Version):
+    """All clauses for the ordered pair (a, b), the operands being ca(a) and cb(b) (classes of the version
+    family, not both BaseVersion); returns (reference verdict, library verdict)."""
     r = ref.reference(a, b)          # ModelError (harness) if the two formulations disagree
-    va, vb = Version(a), Version(b)
+    va, vb = ca(a), cb(b)
     lt, eq, gt = bool(va < vb), bool(va == vb), bool(va > vb)
     le, ne, ge = bool(va <= vb), bool(va != vb), bool(va >= vb)
-    what = "%r vs %r" % (a, b)
+    if ca is Version and cb is Version:
+        what = "%r vs %r" % (a, b)
+    else:
+        what = "%s(%r) vs %s(%r)" % (ca.__name__, a, cb.__name__, b)
     if lt + eq + gt != 1:
         raise Violation("trichotomy", "%s: <,==,> give %s,%s,%s (dpkg: %d)" % (what, lt, eq, gt, r))
     lib = -1 if lt else (0 if eq else 1)
@@ -216,6 +285,12 @@ def check_pair(a, b):
     rlt, req, rgt = bool(vb < va), bool(vb == va), bool(vb > va)
     if (rlt, req, rgt) != (gt, eq, lt):
         raise Violation("antisymmetry", "%s: reversed operators give <,==,> = %s,%s,%s" % (what, rlt, req, rgt))
+    if ca is not Version or cb is not Version:
+        # version_compare() also takes version objects (it builds its own Version from each)
+        vo = version_compare(va, vb)
+        if type(vo) is not int or ref.sign(vo) != r:
+            raise Violation("version_compare-differs", "%s: version_compare on the objects gives %r, dpkg says %d"
+                            % (what, vo, r))
     if r == 0:
         ha, hb = hash(va), hash(vb)
         if ha != hb:
@@ -223,9 +298,13 @@ def check_pair(a, b):
                             "%s compare equal but hash to %d and %d" % (what, ha, hb))
         if len({va, vb}) != 1:
             raise Violation("set-keeps-equal-versions-apart", "%s: set has %d elements" % (what, len({va, vb})))
+        if {va: 1}.get(vb) != 1 or {vb: 1}.get(va) != 1:
+            raise Violation("set-keeps-equal-versions-apart", "%s: a dict keyed by one does not find the other" % what)
+    if ca is BaseVersion:
+        return r, lib               # two BaseVersion objects cannot be compared with each other
     # The same clauses for a version object that *became* b by component assignment after it had
     # been compared and hashed as a: ordering and hash are functions of the current value.
-    vm = Version(a)
+    vm = ca(a)
     hash(vm), vm == vb, vm < vb
     try:
         if vb.epoch is not None:
@@ -239,13 +318,13 @@ def check_pair(a, b):
     if vm is not None and str(vm) == b:
         if not (vm == vb) or vm < vb or vm > vb or hash(vm) != hash(vb) or len({vm, vb}) != 1:
             raise Violation("assigned-object-differs-from-fresh",
-                            "Version(%r) turned into %r by component assignment: ==,<,> with Version(%r) "
-                            "give %s,%s,%s; hashes %d and %d" % (a, b, b, vm == vb, vm < vb, vm > vb,
-                                                                hash(vm), hash(vb)))
+                            "%s(%r) turned into %r by component assignment: ==,<,> with %s(%r) "
+                            "give %s,%s,%s; hashes %d and %d" % (ca.__name__, a, b, cb.__name__, b, vm == vb, vm < vb,
+                                                                vm > vb, hash(vm), hash(vb)))
         if bool(vm < va) != (r > 0) or bool(vm > va) != (r < 0):
             raise Violation("assigned-object-differs-from-fresh",
-                            "Version(%r) turned into %r by component assignment orders against "
-                            "Version(%r) as <:%s >:%s, dpkg says %d" % (a, b, a, vm < va, vm > va, -r))
+                            "%s(%r) turned into %r by component assignment orders against "
+                            "%s(%r) as <:%s >:%s, dpkg says %d" % (ca.__name__, a, b, ca.__name__, a, vm < va, vm > va, -r))
     return r, lib
 
 
@@ -278,19 +357,19 @@ def _attempted_string(s, attr, value):
     return gen.render(e, u, r or None)
 
 
-def check_live_object(vm, s, others, history):
+def check_live_object(vm, s, others, history, sig=None):
     """``vm`` shows the valid version string ``s``: it must behave like a fresh Version(s)."""
     fresh = Version(s)
     hv, hf = hash(vm), hash(fresh)
     if _ops(vm, fresh) != _EXPECT[0] or _ops(fresh, vm) != _EXPECT[0] or hv != hf or len({vm, fresh}) != 1:
-        raise Violation("live-object-differs-from-fresh-after-assignment-attempt",
+        raise Violation(sig or "live-object-differs-from-fresh-after-assignment-attempt",
                         "%s: the object shows %r but against a fresh Version(%r) <,==,> give %s (reversed %s), "
                         "hashes %d and %d" % (history, s, s, _ops(vm, fresh)[:3], _ops(fresh, vm)[:3], hv, hf))
     for o in others:
         r = ref.reference(s, o)
         vo = Version(o)
         if _ops(vm, vo) != _EXPECT[r] or _ops(vo, vm) != _EXPECT[-r]:
-            raise Violation("live-object-ordered-unlike-its-string-after-assignment-attempt",
+            raise Violation(sig or "live-object-ordered-unlike-its-string-after-assignment-attempt",
                             "%s: the object shows %r; dpkg orders %r vs %r as %d but the operators "
                             "<,==,>,<=,!=,>= give %s (reversed operands: %s)"
                             % (history, s, s, o, r, _ops(vm, vo), _ops(vo, vm)))
@@ -329,6 +408,127 @@ def check_edits(a, b, edits):
     return labels
 
 
+def _duplicate(obj, how):
+    """Another version object obtained from ``obj``; None when that way of copying is not available
+    (the property promises nothing about copy / pickle support itself)."""
+    if how == "ctor":
+        return type(obj)(obj)                   # the documented Version(existing version object)
+    if how == "str":
+        return type(obj)(str(obj))              # the control: through the string
+    if how.startswith("ctor:"):
+        return CLASSES[how[5:]](obj)            # an object of another class of the family from this one
+    try:
+        if how == "copy":
+            return copy.copy(obj)
+        if how == "deepcopy":
+            return copy.deepcopy(obj)
+        return pickle.loads(pickle.dumps(obj, int(how[6:])))
+    except Exception:                           # noqa: BLE001 - not the property's business
+        return None
+
+
+def _observe(objs, order, others, history):
+    """Every live object must behave like a fresh Version of the string it shows, also against the
+    other live objects.  Returns False when some object shows an invalid string (nothing to demand)."""
+    strings = []
+    for o in objs:
+        s = str(o)
+        if not _valid(s):
+            return False
+        strings.append(s)
+    idx = list(range(len(objs)))
+    if order:
+        idx.reverse()
+    for i in idx:
+        check_live_object(objs[i], strings[i], others, "%s; observing object %d" % (history, i),
+                          sig="version-object-obtained-another-way-unlike-its-string")
+    for i in idx:
+        for j in idx:
+            if i == j:
+                continue
+            r = ref.reference(strings[i], strings[j])
+            if _ops(objs[i], objs[j]) != _EXPECT[r]:
+                raise Violation("version-object-obtained-another-way-unlike-its-string",
+                                "%s: object %d shows %r, object %d shows %r; dpkg orders them as %d but the operators "
+                                "<,==,>,<=,!=,>= give %s" % (history, i, strings[i], j, strings[j], r,
+                                                             _ops(objs[i], objs[j])))
+            if r == 0 and (hash(objs[i]) != hash(objs[j]) or len({objs[i], objs[j]}) != 1):
+                raise Violation("hash-differs-for-equal-versions",
+                                "%s: objects %d and %d show the equal versions %r and %r but hash to %d and %d "
+                                "(set of both: %d elements)" % (history, i, j, strings[i], strings[j], hash(objs[i]),
+                                                                hash(objs[j]), len({objs[i], objs[j]})))
+    return True
+
+
+def check_objects(a, b, cls, warm, dups, edits, order):
+    """Live objects obtained from one another, assignment attempts on any of them; returns labels."""
+    labels = set(["cls:" + cls.__name__])
+    first = cls(a)
+    if warm:
+        hash(first), first == Version(b), first < Version(b), Version(b) < first
+        labels.add("objects:original-used-before-duplication")
+    objs = [first]
+    history = "object 0 = %s(%r)%s" % (cls.__name__, a, " (compared and hashed)" if warm else "")
+    for src, how in dups:
+        src %= len(objs)
+        if not _valid(str(objs[src])):
+            break
+        d = _duplicate(objs[src], how)
+        if d is None:
+            labels.add("dup-unavailable:" + how)
+            continue
+        history += "; object %d = %s of object %d" % (len(objs), how, src)
+        labels.add("dup:" + ("pickle" if how.startswith("pickle") else how))
+        objs.append(d)
+    others = [b]
+    if order & 2 and edits:
+        labels.add("objects:first-observed-after-the-first-attempt")
+    elif not _observe(objs, order & 1, others, history):
+        labels.add("edit:object-shows-invalid-string")
+        return False, labels
+    attempted = False
+    for who, attr, value in edits:
+        who %= len(objs)
+        try:
+            setattr(objs[who], attr, value)
+            outcome = "accepted"
+        except ValueError:
+            outcome = "refused"
+        history += "; object %d .%s = %r (%s)" % (who, attr, value, outcome)
+        labels.add("objects:attempt-%s-on-%s" % (outcome, "the-original" if who == 0 else "a-duplicate"))
+        if not _observe(objs, order & 1, others, short(history, 400)):
+            labels.add("edit:object-shows-invalid-string")
+            break
+        attempted = True
+    labels.add("objects:%d-live" % len(objs))
+    if len(objs) > 1 and len(set(str(o) for o in objs)) > 1:
+        labels.add("objects:showing-different-strings")
+    return attempted and len(objs) > 1, labels
+
+
+def _usable_object_case(case):
+    cls = case.get("cls")
+    dups, edits = case.get("dups"), case.get("edits")
+    if cls not in gen.FAMILY or not isinstance(dups, list) or not isinstance(edits, list):
+        return None
+    if len(dups) > 24 or len(edits) > 64:
+        return None
+    d_out, e_out = [], []
+    for d in dups:
+        if not (isinstance(d, list) and len(d) == 2 and type(d[0]) is int and d[0] >= 0 and d[1] in gen.HOW_ALL):
+            return None
+        d_out.append((d[0], d[1]))
+    for e in edits:
+        if not (isinstance(e, list) and len(e) == 3 and type(e[0]) is int and e[0] >= 0):
+            return None
+        u = _usable_edits([e[1:]])
+        if u is None:
+            return None
+        e_out.append((e[0],) + u[0])
+    order = case.get("order")
+    return CLASSES[cls], bool(case.get("warm")), d_out, e_out, order if type(order) is int and 0 <= order <= 3 else 0
+
+
 def _usable_edits(edits):
     if not isinstance(edits, list) or len(edits) > 64:
         return None
@@ -365,14 +565,35 @@ def check(case):
             edits = _usable_edits(case["edits"])
             if edits is None:
                 return (False, ("invalid-case-skipped",))
-        r, _ = check_pair(a, b)
+        ca = cb = Version
+        if "cls" in case:
+            cls = case["cls"]
+            if not (isinstance(cls, list) and len(cls) == 2 and all(isinstance(c, str) and c in CLASSES for c in cls)
+                    and cls != ["BaseVersion", "BaseVersion"]):
+                return (False, ("invalid-case-skipped",))
+            ca, cb = CLASSES[cls[0]], CLASSES[cls[1]]
+        r, _ = check_pair(a, b, ca, cb)
         nontrivial, labels = pair_labels(a, b, r)
         labels.add("kind:pair")
+        if "cls" in case:
+            labels.add("kind:pair+classes")
+            labels.add("cls:%s/%s" % (ca.__name__, cb.__name__))
+            if ca is not cb:
+                labels.add("classes-differ:" + ("equal" if r == 0 else "unequal"))
+                nontrivial = nontrivial or r == 0
         if edits:
             el = check_edits(a, b, edits)
             labels.update(el)
             labels.add("kind:pair+edits")
             nontrivial = nontrivial or "edit:refused:version-alphabet-only" in el
+        return (nontrivial, sorted(labels))
+    if kind == "objects":
+        a, b = case.get("a"), case.get("b")
+        usable = _usable_object_case(case)
+        if usable is None or not (_valid(a) and _valid(b)):
+            return (False, ("invalid-case-skipped",))
+        nontrivial, labels = check_objects(a, b, *usable)
+        labels.add("kind:objects")
         return (nontrivial, sorted(labels))
     if kind == "triple":
         vs = case.get("vs")
@@ -528,6 +749,11 @@ def sources(tier):
                 Hyp("long-run-near-misses", gen.long_run_case(), 1200, shards=2),
                 Enum("assignment-attempts", gen.edit_cases, "start x donor x assignment template on a live object"),
                 Hyp("edited-pairs", gen.edited_pair(), 1000, shards=2),
+                Enum("operand-classes", gen.class_pair_cases, "all ordered pairs of a 36-version pool x 24 class pairs"),
+                Hyp("classed-near-miss-pairs", gen.classed_pair(), 1200, shards=2),
+                Enum("objects-obtained-another-way", gen.object_cases,
+                     "start x donor x way of duplicating x changed object x attempt x used-before (+ chains)"),
+                Hyp("duplicated-and-edited-objects", gen.object_case(), 1000, shards=2),
                 Custom("dpkg-binary", dpkg_phase_factory(450, 300, 150), shards=4)]
     return [Enum("pool-all-pairs", all_pairs("quick"), EXHAUSTIVE["thorough"]),
             Custom("big-pool-sample", big_pool_phase, shards=16),
@@ -537,4 +763,9 @@ def sources(tier):
             Hyp("long-run-near-misses", gen.long_run_case(), 8000, shards=8),
             Enum("assignment-attempts", gen.edit_cases, "start x donor x assignment template on a live object"),
             Hyp("edited-pairs", gen.edited_pair(), 6000, shards=8),
+            Enum("operand-classes", gen.class_pair_cases, "all ordered pairs of a 36-version pool x 24 class pairs"),
+            Hyp("classed-near-miss-pairs", gen.classed_pair(), 8000, shards=8),
+            Enum("objects-obtained-another-way", gen.object_cases,
+                 "start x donor x way of duplicating x changed object x attempt x used-before (+ chains)"),
+            Hyp("duplicated-and-edited-objects", gen.object_case(), 6000, shards=8),
             Custom("dpkg-binary", dpkg_phase_factory(3500, 2750, 1000), shards=16)]
